@@ -28,7 +28,9 @@ func (c *wsNetConn) Write(b []byte) (n int, err error) {
 }
 
 func (c *wsNetConn) Close() error {
-	panic("unimplemented")
+	// this is called by the upgrader when the handshake fails.
+	// the underlying connection is closed by ServerConn.
+	return nil
 }
 
 func (c *wsNetConn) LocalAddr() net.Addr {
